@@ -141,6 +141,27 @@ def callOk (tg : Target) (out : Out) : Bool :=
   | some _ => out == .ok
   | none => out == .errParse || out == .errEncode
 
+/-! ### ChainService level (IsBanned / BanPeer / UnbanPeer), within the ban duration
+
+All the client's bans last `BanDuration` (24 h); over a history much shorter than
+that the property reads: `IsBanned(text)` is true exactly when the network
+`text` denotes (whatever the port or spelling) has been banned and not unbanned
+since — the answer is a function of that set alone, not of which questions were
+asked before. -/
+
+abbrev BanSet := List NetId
+
+def BanSet.ban (b : BanSet) (id : NetId) : BanSet := if b.contains id then b else id :: b
+
+def BanSet.unban (b : BanSet) (id : NetId) : BanSet := b.filter (fun x => !(x == id))
+
+/-- what `IsBanned` must answer for an address: membership; an address that
+does not parse is never banned -/
+def isBannedOk (b : BanSet) (tg : Target) (ans : Bool) : Bool :=
+  match idOf tg with
+  | some id => ans == b.contains id
+  | none => ans == false
+
 /-- times never decrease, starting from `T` -/
 def monoFrom (T : Int) : Hist → Prop
   | [] => True
